@@ -84,18 +84,18 @@ PROPS = {
         "streams": ["nested", "dualhandle", "slabid"], "driver": {"nested": "world", "slabid": "slabid"}, "level": "proof",
         "trusted_base": LEAN_TB, "assumptions": NEST_ASSUME,
         "rule": "nested histories (arrays and maps in arrays and maps, wrapped 0-2 levels, depth up to 7, children growing and shrinking across the inline limit, parents restructured between child operations, commits + reload, commit + reopen + continue with re-fetched handles, handles obtained by lookup and by mutable iteration, byte-granular walks across the inline limit in both directions, PopIterate through child / detached handles with deep disposal, SetType on nested containers, deep removal of everything at the end); plus the dual-handle scenarios; distinct = distinct programs",
-        "explanation": "Theorems: storable_inline_decision (inline exactly when a single slab fits the budget left after wrappers; size handed to the parent; value ID kept; storage effect), notify_updates_array_parent, handed_back_is_standalone, value_id_stable (all five operations), elem_sync_childStorable, mutIdx_ok_arrInsert, index_shift_order_independent. Tie: every nested operation replayed on the World model (observations, effects, nested dumps). Oracle: deep read-back through the outermost container, VerifyArray/VerifyMap, reload after commit.",
+        "explanation": "Deciding theorems (hypothesis-free, from the empty world): C10Hist.history_invariant (every history of requests through handles the client holds - any interleaving, any depth, gets, pops, disposal, reopen - keeps the global invariant WorldOk' and every handle held current), history_refines / history_read_through (the table of kinds, keys and payloads reached is the sequence / dictionary specification's; every reference element has the size of the current form of its container, inline exactly when it fits), C10W.worldOk'_*_all (per operation: invariant, list-level result, ALL current handles stay current, everything not above the target untouched), worldOk_arrPop/mapPop, history_index_shifts_never_fail. Also: storable_inline_decision, handed_back_is_standalone, value_id_stable, C10W.notify_updates_parent. Superseded, kept at the end of the list: C10.notify_updates_array_parent, C10.mutIdx_ok_arrInsert, C10.index_shift_order_independent (hypothesis-laden). NOT decided by theorem (oracle / tie only): 'persisted by the next commit' (effect log vs storage), more than one handle object per container (F2/F2b). Tie: every nested operation replayed on the World model (observations, effects, nested dumps). Oracle: deep read-back through the outermost container, VerifyArray/VerifyMap, reload after commit.",
     },
     "C11": {
         "streams": ["nested"], "driver": {"nested": "world"}, "level": "proof",
         "trusted_base": LEAN_TB, "assumptions": NEST_ASSUME,
         "rule": "nested histories with detach (remove / overwrite by a plain value / overwrite by ANOTHER container in the same slot), mutation through the detached handle, re-attachment elsewhere; distinct = distinct programs",
-        "explanation": "Theorems: detached_array_child / replaced_slot / detached_map_child _leaves_parent_unchanged (the callback answers not-found before any write: containers, index tables and effect log untouched), remove_forgets_index; handed_back_is_standalone (C10). Oracle: dump of the former parent unchanged, returned storable is a reference with the unchanged value ID.",
+        "explanation": "Deciding theorems: C11.detached_by_arrRemove / _arrSet / _mapRemove / _mapSet (after the detaching operation the container is a detached root with a current handle and its former parent does not lie below it) + C11.detached_arrInsert / _arrSet / _arrRemove / _mapSet / _mapRemove / _setType / _arrPopKeep / _mapPopKeep (ANY mutator, plain or child values, through a handle to the detached container or to anything nested in it: invariant kept, list-level result, the container stays a detached root, every container outside its subtree - the former parent in particular - has the identical table entry: content, sizes, form); overwritten_child_leaves_parent_unchanged (overwrite by ANOTHER container in the same slot: index forgotten, later notification a no-op), set_forgets_index, remove_forgets_index, mapRemove_key_absent, mapSet_key_reoccupied, detached_root_lifecycle. One-step readings of the callback: detached_array_child / detached_map_child _leaves_parent_unchanged; replaced_slot_leaves_parent_unchanged is vacuous on valid worlds (replaced_slot_hyps_contradict_invariant) and kept last. Oracle: dump of the former parent unchanged, returned storable is a reference with the unchanged value ID.",
     },
     "C01": {
         "streams": ["array", "persist", "settings", "nested"], "driver": {"array": "array", "persist": "array", "settings": "settings", "nested": "world"}, "level": "proof",
         "trusted_base": LEAN_TB, "assumptions": ARRAY_ASSUME + [
-            "nested containers as elements are covered by C10's World model, not by these theorems (elements here are plain values of any size and references)",
+            "nested containers as elements are covered by C10's World model, not by the array-level theorems (elements there are plain values of any size and references); that in-range requests through the handle of an array nested in / holding containers never fail, and that an error is exactly the array model's argument error, is C10Total.arrInsert/arrSet/arrRemove/arrGet/arrPop_total, *_errors and, along every history, C10Hist.history_progress / history_no_internal_failure (registered here and under C10)",
             "the guard count < 2^32-1 (maxArrayElementCount) is a hypothesis of insert_refines; at the excluded point the code returns its dedicated error, reproduced by the model"],
         "rule": "array histories (insert/append/set/remove/get/pop/type/count/iterators, out-of-range requests) at T in {256,257,511,512,1023,1024,32768,random}, 8 element-size profiles (tiny, mid, at the inline limit, externalised, just under half a slab, fixed, quarter, mixture), 5 position profiles, 4 operation mixes; reopen by root ID after commits and crashes; distinct = distinct (T, length) programs",
         "explanation": "Theorems: get/insert/set/remove/pop/count/setType_refines (the array model refines List operations for EVERY legal threshold, every value size >= 1, every position; in-range requests never fail; root ID and type stable), route_linear_eq_binary. Tie: every operation of every history replayed on the model; observations, net SlabStorage effects, dumps of every stored slab and periodic full-tree dumps must be identical; thresholds and constants compared exhaustively. Oracle: shadow slice.",
